@@ -73,7 +73,12 @@ class Slot:
 
 
 def read_value(node, h):
-    return vm.loads(node.dump(h))
+    raw = node.dump(h)
+    if len(raw) > 400000:
+        # an operation (combinations, rpad to a large target) blew a small array up: decoding and comparing it in
+        # Python would take longer than the per-run timeout allows - outside the explored size bound, no verdict
+        raise Discard("result too large for the explored size bound")
+    return vm.loads(raw)
 
 
 def operand_facts(node, h, op):
@@ -495,7 +500,7 @@ def tier_opts(tier):
         return {"runs": 300000, "determinism_sample": 1024, "perturb_sample": 4000, "asan_runs": 100000,
                 "pool_max_ops": 24, "layout_max_depth": 4, "layout_exotic_dtypes": True, "run_timeout": 30.0,
                 "shrink_per_class": 3, "mutants": True}
-    return {"asan_runs": 8000, "runs": 30000, "determinism_sample": 64, "perturb_sample": 1000, "pool_max_ops": 14, "layout_max_depth": 3,
+    return {"layout_exotic_dtypes": True, "asan_runs": 8000, "runs": 30000, "determinism_sample": 64, "perturb_sample": 1000, "pool_max_ops": 14, "layout_max_depth": 3,
             "run_timeout": 10.0, "shrink_per_class": 2}
 
 
